@@ -24,6 +24,13 @@ u16 ti_host_mmio_read(TImpl* t, u16 a) { return t->memory_interface.MMIORead(a);
 void ti_host_mmio_write(TImpl* t, u16 a, u16 v) { t->memory_interface.MMIOWrite(a, v); }
 void ti_senddata(TImpl* t, u8 i, u16 v) { t->apbp_from_cpu.SendData(i, v); }
 u16 ti_recvdata(TImpl* t, u8 i) { return t->apbp_from_dsp.RecvData(i); }
+bool ti_senddataisempty(TImpl* t, u8 i) { return !t->apbp_from_cpu.IsDataReady(i); }
+bool ti_recvdataisready(TImpl* t, u8 i) { return t->apbp_from_dsp.IsDataReady(i); }
+u16 ti_peekrecvdata(TImpl* t, u8 i) { return t->apbp_from_dsp.PeekData(i); }
+void ti_setsemaphore(TImpl* t, u16 v) { t->apbp_from_cpu.SetSemaphore(v); }
+u16 ti_getsemaphore(TImpl* t) { return t->apbp_from_dsp.GetSemaphore(); }
+void ti_clearsemaphore(TImpl* t, u16 v) { t->apbp_from_dsp.ClearSemaphore(v); }
+void ti_masksemaphore(TImpl* t, u16 v) { t->apbp_from_dsp.MaskSemaphore(v); }
 void ti_tick(TImpl* t) { t->core_timing.Tick(); }
 u64 ti_skip(TImpl* t, u64 n) { return t->core_timing.Skip(n); }
 void ti_call_handler(std::function<void()>* f) { (*f)(); }
